@@ -223,6 +223,48 @@ theorem C18_qu_query (c : Cache) (h : Hist) (now : Int) (i : Info) :
     · intro hall
       exact ⟨_, genQuery_qu_txt lower c h now i ((knownAnswers_nil_iff lower c now i.name 16).mpr hall)⟩
 
+/-- **A question is omitted only when its answer is held** (or, under QM, when the question history
+suppresses it as a duplicate — C13).  For `ty` = SRV (33) or TXT (16): the query built from cache `c`,
+history `h` at `now` contains the question of the instance name **iff** no *unstale* record of that type
+is cached for the instance — a stale or expired-but-unpurged one does not count as held — and the query
+is QU or the history does not suppress the question. -/
+theorem C18_question_asked_iff (c : Cache) (h : Hist) (now : Int) (i : Info) (qu : Bool) (ty : Nat) (hty : ty = 33 ∨ ty = 16) :
+    (∃ known, (({ name := i.name, type := ty, class_ := 1, unique := qu } : Question), known) ∈ genQuery lower c h now i qu) ↔
+      (∀ r ∈ c, lower r.name = lower i.name → r.type = ty → r.class_ = 1 → r.isStale now = true) ∧
+      (qu = true ∨ histSuppresses lower h { name := i.name, type := ty, class_ := 1, unique := qu } now [] = false) := by
+  constructor
+  · rintro ⟨known, hk⟩
+    have hall : ∀ r ∈ c, lower r.name = lower i.name → r.type = ty → r.class_ = 1 → r.isStale now = true := by
+      have := (C18_query_shape lower c h now i qu _ known hk).2.2.1
+      rcases this with ⟨-, -, h3⟩ | ⟨h1, -⟩
+      · exact h3
+      · simp only at h1
+        rcases hty with rfl | rfl <;> omega
+    refine ⟨hall, ?_⟩
+    by_cases hq : qu = true
+    · exact Or.inl hq
+    · right
+      have hnil : known = [] := by
+        have hk' := (C18_query_shape lower c h now i qu _ known hk).2.2.2.1
+        cases known with
+        | nil => rfl
+        | cons r rs =>
+          have := (hk' r).mp (by simp)
+          have hs := hall r this.1 this.2.1 this.2.2.1 this.2.2.2.1
+          rw [this.2.2.2.2] at hs
+          exact absurd hs (by simp)
+      have := (C18_query_shape lower c h now i qu _ known hk).2.2.2.2 (by simpa using hq)
+      rw [hnil] at this
+      exact this
+  · rintro ⟨hall, hs⟩
+    have hnil : knownAnswers lower c now i.name ty = [] := (knownAnswers_nil_iff lower c now i.name ty).mpr hall
+    have hadd := addQuestion_of lower c h now i.name ty true qu (by rw [hnil]; simp) (by rw [hnil]; exact hs)
+    rw [hnil] at hadd
+    refine ⟨[], (mem_genQuery lower).mpr ?_⟩
+    rcases hty with rfl | rfl
+    · exact Or.inl hadd
+    · exact Or.inr (Or.inl hadd)
+
 /-! ### the hypotheses are satisfiable: the former D14 witness -/
 
 /-- a valid SRV (→ `h.local.`, TTL 120 s), an SRV inserted later (→ `g.local.`, TTL 1 s) and an address of `h.local.`, all created at 0 -/
